@@ -213,6 +213,18 @@ CHECKS["C17"] = dict(
          "not walked. Interleavings are explored on the model, not by racing real threads.",
     technique="TLC over all interleavings of non-atomic refcount updates, instantiated with the ownership graph observed through a hook")
 
+CHECKS["C15"] = dict(
+    category="model_checking",
+    text="UplcText.tla states the concrete syntax (the table of built-in names, type and constant syntax, Data syntax, string escapes) "
+         "and prints programs as pieces; MC_Text enumerates one program per built-in name, per constant type and nesting, per string "
+         "escape class, per Data tag range and per term constructor. For each, (a) the real parser on the SPECIFICATION's text must "
+         "return the program (this binds the parser to the spec independently of the printer), (b) the real printer's text must parse "
+         "back to the program and (c) printing it again is a fixed point. Random programs beyond the tables go through (b) and (c).",
+    design_ref="DESIGN.md section 6 C15, section 4.4",
+    note="BLS constants are not representable in the interchange format. The bare de Bruijn form (index-derived names) is not meant "
+         "to be read back and is not checked. Parse is not specified as a function on arbitrary token sequences (that is C20).",
+    technique="TLA+ statement of the concrete syntax, TLC-enumerated table programs, replay through the real parser and printer")
+
 NOT_BUILT = "not built yet (machinery under construction, see DESIGN.md section 10)"
 
 
